@@ -1,20 +1,21 @@
-(* C15 Over-constrained specifications are reported, not passed on -- PARTIAL:
-   proved: whenever template propagation of the model succeeds, no initialised node is forced
-   complementary to itself (so a hairpin pairing a domain with itself, or any odd cycle, is
-   always reported).  NOT yet proved: the template-conflict half (success implies a
-   satisfying assignment exists / failure implies none); it is decided per case by the
-   denotation-level satisfiability oracle of the correspondence check. *)
+(* C15 Over-constrained specifications are reported, not passed on.
+   Proved for the designer model, for every document whose seeded link graph passes graph_ok:
+   constraint generation reports over-constraint exactly when no nucleotide assignment satisfies
+   every template and every equal / complementary link of the seeded graph (C15_over_iff_unsat),
+   and otherwise returns arrays (C15_seeded_total); in particular a node forced complementary
+   to itself, or a class with no common base, is always reported (C15_failure_reason), and a
+   satisfiable graph is never rejected for this reason. *)
 From Coq Require Import List String Ascii Arith.
-From PC Require Import Comp.Compile Design.Propagate Design.PropagateProofs Design.Designer Design.DesignerProofs.
+From PC Require Import Base.Codes Comp.Syntax Comp.Compile Design.Propagate Design.PropagateProofs Design.Designer Design.DesignerProofs Design.TemplateProofs.
 Import ListNotations.
 
-Theorem C15_odd_cycle_reported_partial : forall g m,
+Theorem C15_odd_cycle_reported : forall g m,
   (forall x, In x (g_keys g) -> exists E W, get m x = Some (E, W) /\
      (forall z, In z E <-> gconn g x false z) /\ (forall z, In z W <-> gconn g x true z)) ->
   forall st st' b, templates m (g_keys g) st [] = (Some st', b) ->
   forall x, In x (g_keys g) -> ~ gconn g x true x.
 Proof. exact odd_cycle_reported. Qed.
-Print Assumptions C15_odd_cycle_reported_partial.
+Print Assumptions C15_odd_cycle_reported.
 
 Theorem C15_closure_exact : forall g, graph_closed g = true ->
   exists m, propagate (adj (g_eq g)) (adj (g_wc g)) (g_keys g) = OOk m /\
@@ -22,3 +23,32 @@ Theorem C15_closure_exact : forall g, graph_closed g = true ->
     (forall z, In z E <-> gconn g x false z) /\ (forall z, In z W <-> gconn g x true z).
 Proof. exact closure_exact. Qed.
 Print Assumptions C15_closure_exact.
+
+Theorem C15_over_iff_unsat : forall p so lay g, seed p so = OK (lay, g) -> graph_ok g = true ->
+  (get_constraints p so = DOver <-> ~ exists a, gsat g a).
+Proof. exact over_iff_unsat. Qed.
+Print Assumptions C15_over_iff_unsat.
+
+Theorem C15_seeded_total : forall p so lay g, seed p so = OK (lay, g) -> graph_ok g = true ->
+  get_constraints p so = DOver \/ exists e w s, get_constraints p so = DOk e w s.
+Proof. exact seeded_total. Qed.
+Print Assumptions C15_seeded_total.
+
+(* why template propagation fails: a node forced complementary to itself, or an empty class *)
+Theorem C15_failure_reason : forall g m, graph_closed g = true ->
+  (forall x, In x (g_keys g) -> exists E W, get m x = Some (E, W) /\
+     (forall z, In z E <-> gconn g x false z) /\ (forall z, In z W <-> gconn g x true z)) ->
+  forall st0, map fst st0 = g_keys g -> (forall x, In x (g_keys g) -> group (st_of st0 x) <> None) ->
+  forall bb, templates m (g_keys g) st0 [] = (None, bb) ->
+  bb = true /\ exists x, In x (g_keys g) /\ (gconn g x true x \/ forall b, ~ in_class g st0 x b).
+Proof. exact templates_reports. Qed.
+Print Assumptions C15_failure_reason.
+
+(* the assignment exhibited on success *)
+Theorem C15_success_gives_assignment : forall g m, graph_closed g = true ->
+  (forall x, In x (g_keys g) -> exists E W, get m x = Some (E, W) /\
+     (forall z, In z E <-> gconn g x false z) /\ (forall z, In z W <-> gconn g x true z)) ->
+  forall st0, map fst st0 = g_keys g -> (forall x, In x (g_keys g) -> group (st_of st0 x) <> None) ->
+  ((exists st' b, templates m (g_keys g) st0 [] = (Some st', b)) <-> exists a, sat g st0 a).
+Proof. exact templates_succeed_iff_sat. Qed.
+Print Assumptions C15_success_gives_assignment.
